@@ -341,8 +341,20 @@ def z1_side_files(prog, ctx, wc):
                     relem = ("obj", call_name(des[0]).split(".")[-2])
                     okshape = True
     if not okshape:
-        ctx.fail("Z1", r, r._qualname, "multimapper reader loop",
-                 "reader of <save>_multimappers_<chr> is not 'count; while count != TERMINATION_INT: count x deserialize; count'")
+        # the same protocol with the library idiom:  for count in iter(lambda: read_int(f), TERMINATION_INT): count x deserialize
+        for lp in (s_ for s_ in walk_no_nested(r) if isinstance(s_, ast.For) and isinstance(s_.target, ast.Name)):
+            it = lp.iter
+            if isinstance(it, ast.Call) and call_name(it) == "iter" and len(it.args) == 2 and dotted(it.args[1]) == "TERMINATION_INT" \
+                    and isinstance(it.args[0], ast.Lambda) and call_name(it.args[0].body) == "read_int" and len(it.args[0].body.args) == 1:
+                inner_for = [s_ for s_ in lp.body if isinstance(s_, ast.For)]
+                if inner_for and call_name(inner_for[0].iter) == "range" and src(inner_for[0].iter.args[0]) == lp.target.id:
+                    des = [c for c in ast.walk(inner_for[0]) if isinstance(c, ast.Call) and call_name(c) and call_name(c).endswith(".deserialize")]
+                    if len(des) == 1:
+                        relem = ("obj", call_name(des[0]).split(".")[-2])
+                        okshape = True
+    if not okshape:
+        ctx.undecided("Z1", r, r._qualname, "the reader of <save>_multimappers_<chr> is not written as 'count; while count != TERMINATION_INT: count x "
+                      "deserialize; count' nor as 'for count in iter(lambda: read_int(f), TERMINATION_INT)'")
     elif not wire.ops_equal(welem, relem):
         ctx.fail("Z1", wl[0], w._qualname + " / " + r._qualname, src(wl[0]),
                  "multimapper file elements written as %s but read as %s" % (wire.fmt(welem), wire.fmt(relem)))
